@@ -96,20 +96,34 @@ def t_solver(tree, specs):
         raise HarnessError('functions not found: %s' % sorted(missing))
     return tree
 
+def _havoc_stmt(which, names):
+    return "%s = __vp_havoc__(%r, locals(), %r)" % (', '.join(names), which, tuple(names))
+
+# locals (re)bound by the havoc statement at the loop head; the first ones are the iterate
+# scalars, the others are per-solve work objects that the code allocates at iteration 0 and
+# that must exist when the body is entered at an arbitrary iteration k >= 1 (fault harness)
+HAVOC_NAMES = {
+    'conelp': ('tau', 'kappa', 'gap', 'W', 'dg', 'dgi', 'x1', 'y1', 'z1', 'th'),
+    'coneqp': ('gap', 'W'),
+    'cpl': ('gap',),
+}
 CONEPROG_SPECS = {
-    'conelp': "tau, kappa, gap = __vp_havoc__('conelp', locals())",
-    'coneqp': "gap = __vp_havoc__('coneqp', locals())",
+    'conelp': _havoc_stmt('conelp', HAVOC_NAMES['conelp']),
+    'coneqp': _havoc_stmt('coneqp', HAVOC_NAMES['coneqp']),
 }
 CVXPROG_SPECS = {
-    'cpl': "gap = __vp_havoc__('cpl', locals())",
+    'cpl': _havoc_stmt('cpl', HAVOC_NAMES['cpl']),
 }
 
 # default hook implementations: behave exactly like the untransformed code
 def _iters_default(stop):
     return iter(range(stop))
-def _havoc_default(which, loc):
-    if which == 'conelp': return loc['tau'], loc['kappa'], loc['gap']
-    return loc['gap']
+def _havoc_default(which, loc, names):
+    return tuple(loc.get(n) for n in names)
+def havoc_result(loc, names, values):
+    """tuple for the havoc statement: `values` overrides, everything else keeps its current
+    binding (None if not yet bound)"""
+    return tuple(values[n] if n in values else loc.get(n) for n in names)
 def _ret_default(val, loc):
     return val
 
